@@ -407,6 +407,9 @@ def rnd_name(rng, used, longnames):
 def rnd_lp(rng, mode, family):
     n = rng.randint(1, 6)
     m = rng.randint(0, 6)
+    if family == "longcoef":
+        n = rng.randint(5, 12)
+        m = rng.randint(1, 3)
     zero_obj = rng.random() < 0.15
     cols, rows = [], []
     used = set()
@@ -453,12 +456,20 @@ def rnd_lp(rng, mode, family):
         else:
             lhs, rhs = Fraction(0), "inf"
         es = {}
-        if rng.random() > 0.12:                             # else an empty row
-            for j in rng.sample(range(n), rng.randint(1, n)):
+        if rng.random() > 0.12 or family == "longcoef":     # else an empty row
+            for j in (range(n) if family == "longcoef" else rng.sample(range(n), rng.randint(1, n))):
                 v = rnd_value(rng, mode)
                 if v != 0:
                     es[j] = v
         rows.append({"lhs": lhs, "rhs": rhs, "es": es, "name": rnd_name(rng, used, longn)})
+    if family == "longcoef":
+        # coefficients with thousands of digits: five of them on one physical line exceed the LP reader's line buffer, which then
+        # has to grow (8192 -> 16384 -> 32768 -> 65536) while the line is being assembled
+        D = rng.choice([1700, 3300, 3300, 5000, 6600, 6600, 9000])
+        for r in rows:
+            for j in list(r["es"]):
+                num = int("".join(rng.choice("123456789") + "".join(rng.choice("0123456789") for _ in range(D + rng.randint(-40, 40)))))
+                r["es"][j] = Fraction(rng.choice([1, -1]) * num, rng.choice([1, 1, 3, 7, 10**9 + 7]))
     if mode == "real":                                       # every value must be a double
         rd = lambda v: v if v in ("inf", "-inf") else Fraction(float(v))
         for x in cols:
@@ -877,6 +888,8 @@ def main():
             fmt = ck.rng.choice(["lp", "mps"])
             mode = ck.rng.choice(["real", "rat"])
             fam = ck.rng.choices(["general", "nofree", "longnames"], weights=[3, 6, 1])[0]
+            if k < (8 if quick else 60):
+                fam, fmt, mode = "longcoef", "lp", "rat"
             lp = rnd_lp(ck.rng, mode, fam)
             scale = ck.rng.choice([0, 0, 0, 2, 3, 5]) if mode == "real" else 0
             c = {"fmt": fmt, "mode": mode, "names": 1 if fam == "longnames" else ck.rng.randrange(2), "wzo": ck.rng.randrange(2),
